@@ -191,7 +191,7 @@ Proof.
   - apply apply_info_same_core.
   - intros H; inversion H; subst. apply same_core_refl.
 Qed.
-Lemma alloc_tensor_same_core h nm tok p bd h' c : alloc_tensor h nm tok p bd = (h', c) -> same_core h h'.
+Lemma alloc_tensor_same_core h nm tok p bd fl h' c : alloc_tensor h nm tok p bd fl = (h', c) -> same_core h h'.
 Proof. unfold alloc_tensor. intros H; inversion H; subst. repeat split; auto. Qed.
 
 (* ---- Value(name=...) *)
